@@ -151,6 +151,12 @@ def strat_unnorm():
 def body_unnorm(ctx, case):
     from pero_ocr.decoding.decoders import CTCPrefixLogRawNumpyDecoder, GreedyDecoder
     (fam, M), row, delta, k = case
+    if row == 7 and M.shape[0] >= 2:
+        # a line of several hundred frames (the drawn matrix repeated); the unnormalised frame is one of the last
+        reps = 300 // M.shape[0] + 1 + (k % 3) * 40
+        M = np.tile(M, (reps, 1))
+        row = M.shape[0] - 1 - (k % 5)
+        k = min(k, 3)
     T, C = M.shape
     M = M.copy()
     M[row % T] += math.log1p(delta)
